@@ -181,6 +181,15 @@ def check_system(s: Any, names: Sequence[str], linenos: Dict[int, Tuple[str, int
         if want.get('error'):
             if not reported:
                 out.append(('inconsistency-not-reported', '%s: Python rejects %s (C3 TypeError) but no mro message names it; mro messages: %s' % (desc, names[i], mro_msgs[:3])))
+            # "and still documents it": whatever order is used instead starts with the class itself, so that its own members are found
+            # on it and not on a base
+            order_ = cls.mro()
+            if not order_ or order_[0] is not cls:
+                out.append(('rejected-lookup-order', '%s: the lookup order of the rejected class %s does not start with the class itself: %s' % (desc, names[i], [c_.fullName() for c_ in order_])))
+            for n_, own_ in cls.contents.items():
+                if cls.find(n_) is not own_:
+                    out.append(('rejected-lookup-order', '%s: %s.find(%r) gives %r, the class defines it itself' % (desc, names[i], n_, cls.find(n_))))
+                    break
             if render_rejected:
                 try:
                     html = render_page(cls)
